@@ -1,6 +1,7 @@
 package main
 
 import (
+	"os"
 	"fmt"
 	"go/token"
 	"go/types"
@@ -260,6 +261,9 @@ func runC08(p *Prog, l *Ledger) {
 					}
 					signalRels = append(signalRels, rel)
 					sawSignal = true
+					if os.Getenv("GCLVERIFY_DEBUG") != "" {
+						fmt.Printf("DEBUG signal %s: %s\n", p.Key(af.Fn), condString(cond))
+					}
 				default:
 					bad3 = append(bad3, fmt.Sprintf("%s: control flow depends on rtt through an unrecognised condition (%s, operands %s / %s): the limit can be non-monotone in the observed latency", c08At(p, cond), condString(cond), polName(px), polName(py)))
 				}
